@@ -11,6 +11,19 @@ NOTE = ("Trusted base: Lean 4.33 kernel (+ leanchecker re-check in the thorough 
         "string/Duration/BTreeSet/StableVec semantics, derive_builder/strum/derive_more/shorthand generated code, derived PartialEq/Ord/Hash. ")
 
 CLAIMS = {
+    "C13": {
+        "technique": "Lean 4 proof (validator = Boolean closed form <-> declarative consistency) + exhaustive/random differential run with independent rule oracle",
+        "text": ("Proof (Lean 4) on the model: validateVariants_iff and validateSessionData_iff show, for ALL rendition lists, variant lists and "
+                 "session-data lists, that the validator accepts iff every AUDIO/VIDEO/SUBTITLES/CLOSED-CAPTIONS reference is defined by a rendition of "
+                 "the matching type, NONE and a caption group are not mixed (order-free) and (DATA-ID, LANGUAGE) pairs are pairwise distinct; "
+                 "build_ok_iff lifts this to MasterPlaylistBuilder::build, parseMaster_consistent to every value returned by the parser, "
+                 "assembleMaster_ok_iff gives the converse over typed lines; associatedWith_iff + isAssociated_iff_partial characterise the rendition "
+                 "lookup (the NONE-vs-group-named-NONE quirk K5 is excluded by hypothesis, proved as counterexample and recorded as known finding). "
+                 "Tie: exhaustive reduced-scope and random full-scope configurations are rendered to text, parsed by the real library and by the model "
+                 "(status, observation and lookup result must agree) and compared with an independent statement of the rule."),
+        "design_ref": "DESIGN.md §7 C13",
+        "note": "The tag-level acceptance of EXT-X-MEDIA etc. is C14's subject; here all tags are individually valid.",
+    },
     "C19": {
         "technique": "Lean 4 proof of the ==/cmp/hash laws on the model + differential correspondence on all pairs",
         "text": ("Proof (Lean 4) on the model: kfv_laws and f32_laws state, for the three hand-written impls (KeyFormatVersions, Float, UFloat), "
